@@ -20,7 +20,9 @@ AddKey == /\ phase = "keys" /\ Len(keys) < MaxKeys
                /\ keys' = Append(keys, [col |-> c, dir |-> d])
           /\ UNCHANGED <<sel, wh, ws, phase>>
 Finish == /\ phase = "keys" /\ keys # <<>>
-          /\ sel' \in {"path", "keys", "pos"}      \* keys not selected / selected / selected and referred to by position
+          \* keys not selected / selected / selected and referred to by position / only the keys selected (rows may then be
+          \* equal texts of different entries: the ordered output is still a permutation of the unordered one)
+          /\ sel' \in {"path", "keys", "pos", "keysonly"}
           /\ wh' \in BOOLEAN
           /\ phase' = "done"
           /\ UNCHANGED <<keys, ws>>
@@ -29,7 +31,9 @@ Spec == Init /\ [][Next]_vars
 
 RECURSIVE KeyCols2(_)
 KeyCols2(i) == IF i > Len(keys) THEN "" ELSE ", " \o keys[i].col \o KeyCols2(i + 1)
-SelectText == IF sel = "path" THEN "path" ELSE "path" \o KeyCols2(1)
+RECURSIVE KeyCols3(_)
+KeyCols3(i) == IF i > Len(keys) THEN "" ELSE (IF i > 1 THEN ", " ELSE "") \o keys[i].col \o KeyCols3(i + 1)
+SelectText == IF sel = "path" THEN "path" ELSE IF sel = "keysonly" THEN KeyCols3(1) ELSE "path" \o KeyCols2(1)
 DirText(d) == IF d = "desc" THEN " desc" ELSE IF d = "ASC" THEN " asc" ELSE ""
 RECURSIVE OrderText(_)
 OrderText(i) == IF i > Len(keys) THEN ""
@@ -37,12 +41,12 @@ OrderText(i) == IF i > Len(keys) THEN ""
                      \o DirText(keys[i].dir) \o OrderText(i + 1)
 WhereAtom == A1("size", "gt", IntL(2), "")
 WhereText == IF wh THEN " where " \o CondText(WhereAtom) ELSE ""
-NCols == IF sel = "path" THEN 1 ELSE 1 + Len(keys)
+NCols == IF sel = "path" THEN 1 ELSE IF sel = "keysonly" THEN Len(keys) ELSE 1 + Len(keys)
 
 WKey == IF ws = 0 THEN "W5" ELSE "R" \o ToString(ws)
 RECURSIVE KeysClass(_)
 KeysClass(i) == IF i > Len(keys) THEN "" ELSE (IF i > 1 THEN "," ELSE "") \o keys[i].col \o KeysClass(i + 1)
-Scenario == [prop |-> "C05", class |-> (IF ws = 0 THEN "" ELSE "rnd/") \o "keys=" \o KeysClass(1) \o "/" \o sel, world |-> WKey,
+Scenario == [prop |-> "C05", class |-> (IF ws = 0 THEN "" ELSE "rnd/") \o "keys=" \o KeysClass(1) \o "/" \o sel, world |-> WKey, sel |-> sel,
              keys |-> [i \in 1 .. Len(keys) |-> [col |-> keys[i].col, desc |-> (keys[i].dir = "desc")]],
              formula |-> IF wh THEN [f |-> "atom", a |-> WhereAtom] ELSE [f |-> "atom", a |-> A1("size", "gte", IntL(0), "")],
              env |-> [tz |-> "UTC", cwd |-> 0],
